@@ -61,3 +61,77 @@ pub fn db_last_entry(db: &DB) -> (r: Option<Result<(Vec<u8>, Vec<u8>), VErr>>)
             && db@.contains_key((r->0->Ok_0).0@) && db@[(r->0->Ok_0).0@] == (r->0->Ok_0).1@
             && forall|kb: Seq<u8>| db@.contains_key(kb) ==> lex_le(kb, (r->0->Ok_0).0@),
 { unimplemented!() }
+
+// N16b: `db.iterator(IteratorMode::From(&start, Direction::Forward))` / `db.full_iterator(IteratorMode::Start)` as the
+// vector of their items: every entry with key >= start, ascending in the byte order.  Iterator-level I/O errors are not
+// modelled (the `?` on each item is dropped by the same rule).
+pub open spec fn db_scan(dbv: Map<Seq<u8>, Seq<u8>>, start: Seq<u8>, items: Seq<(Vec<u8>, Vec<u8>)>) -> bool {
+    &&& forall|i: int| 0 <= i < items.len() ==> dbv.contains_key((#[trigger] items[i]).0@) && dbv[items[i].0@] == items[i].1@ && lex_le(start, items[i].0@)
+    &&& forall|i: int, j: int| 0 <= i < j < items.len() ==> lex_lt((#[trigger] items[i]).0@, (#[trigger] items[j]).0@)
+    &&& forall|kb: Seq<u8>| dbv.contains_key(kb) && lex_le(start, kb) ==> exists|i: int| 0 <= i < items.len() && (#[trigger] items[i]).0@ == kb
+}
+
+#[verifier::external_body]
+pub fn db_iter_from(db: &DB, start: &Vec<u8>) -> (r: Vec<(Vec<u8>, Vec<u8>)>)
+    ensures db_scan(db@, start@, r@),
+{ unimplemented!() }
+
+#[verifier::external_body]
+pub fn db_iter_all(db: &DB) -> (r: Vec<(Vec<u8>, Vec<u8>)>)
+    ensures db_scan(db@, Seq::<u8>::empty(), r@),
+{ unimplemented!() }
+
+// N12: `*a >= *b`, `*a < *b` on byte strings (`[u8]: PartialOrd` is the lexicographic order)
+#[verifier::external_body]
+pub fn bytes_ge(a: &Vec<u8>, b: &Vec<u8>) -> (r: bool) ensures r == !lex_lt(a@, b@) { **a >= **b }
+#[verifier::external_body]
+pub fn bytes_lt(a: &Vec<u8>, b: &Vec<u8>) -> (r: bool) ensures r == lex_lt(a@, b@) { **a < **b }
+
+pub proof fn lemma_lex_lt_trans(a: Seq<u8>, b: Seq<u8>, c: Seq<u8>)
+    requires lex_lt(a, b), lex_lt(b, c),
+    ensures lex_lt(a, c),
+    decreases a.len(),
+{
+    if a.len() > 0 && b.len() > 0 && c.len() > 0 && a[0] == b[0] && b[0] == c[0] {
+        lemma_lex_lt_trans(a.drop_first(), b.drop_first(), c.drop_first());
+    }
+}
+
+pub proof fn lemma_lex_lt_irrefl(a: Seq<u8>)
+    ensures !lex_lt(a, a),
+    decreases a.len(),
+{
+    if a.len() > 0 { lemma_lex_lt_irrefl(a.drop_first()); }
+}
+
+pub proof fn lemma_lex_empty_least(a: Seq<u8>)
+    ensures lex_le(Seq::<u8>::empty(), a),
+{
+    if a.len() == 0 { assert(a =~= Seq::<u8>::empty()); }
+}
+
+pub proof fn lemma_lex_lt_asym(a: Seq<u8>, b: Seq<u8>)
+    requires lex_lt(a, b),
+    ensures !lex_lt(b, a), a != b,
+    decreases a.len(),
+{
+    if a.len() > 0 && b.len() > 0 && a[0] == b[0] {
+        lemma_lex_lt_asym(a.drop_first(), b.drop_first());
+    }
+}
+
+pub proof fn lemma_lex_total(a: Seq<u8>, b: Seq<u8>)
+    ensures lex_lt(a, b) || a == b || lex_lt(b, a),
+    decreases a.len(),
+{
+    if a.len() == 0 {
+        if b.len() == 0 { assert(a =~= b); }
+    } else if b.len() == 0 {
+    } else if a[0] == b[0] {
+        lemma_lex_total(a.drop_first(), b.drop_first());
+        if a.drop_first() == b.drop_first() {
+            assert(a =~= seq![a[0]] + a.drop_first());
+            assert(b =~= seq![b[0]] + b.drop_first());
+        }
+    }
+}
